@@ -33,10 +33,10 @@ def _val(v):
     raise TypeError(v)
 
 
-def make_cfg(params, invariants=('Emit',)):
+def make_cfg(params, invariants=('Emit',), spec='Spec'):
     p = dict(DEFAULTS)
     p.update(params)
-    lines = ['SPECIFICATION Spec', 'CHECK_DEADLOCK FALSE']
+    lines = ['SPECIFICATION ' + spec, 'CHECK_DEADLOCK FALSE']
     for k, v in p.items():
         if k == 'PredPool':
             lines.append('CONSTANT PredPool <- %s' % (v or 'EmptyPool'))
@@ -49,7 +49,7 @@ def make_cfg(params, invariants=('Emit',)):
 
 def _spec_hash():
     h = hashlib.sha256()
-    for f in ('HplGrammar.tla', 'HplAst.tla', 'HplTypes.tla', 'MC_Grammar.tla'):
+    for f in ('HplGrammar.tla', 'HplAst.tla', 'HplTypes.tla', 'MC_Grammar.tla', 'HplTypedGen.tla'):
         with open(os.path.join(tlc.SPEC, f), 'rb') as fh:
             h.update(fh.read())
     return h
@@ -78,6 +78,34 @@ def enumerate_language(params, cache=True, simulate=None, timeout=3600):
         if t and t[0] == 'S':
             if t[1] in seen:
                 continue
+            seen.add(t[1])
+            sents.append(json.loads(t[1]))
+    r = dict(generated=res['generated'], distinct=res['distinct'], wall=res['wall'])
+    if cache:
+        with open(cpath, 'w') as f:
+            json.dump({'sentences': sents, 'res': r}, f)
+    return sents, r
+
+
+def enumerate_family(family, cache=True, timeout=3600):
+    """All members of a typed family of spec/HplTypedGen.tla: list of {'toks','ast'}."""
+    cfg = make_cfg({'Family': family}, spec='TSpec')
+    h = _spec_hash()
+    h.update(cfg.encode())
+    key = 'fam-' + family + '-' + h.hexdigest()[:16]
+    cdir = os.path.join(tlc.BUILD, 'lang')
+    os.makedirs(cdir, exist_ok=True)
+    cpath = os.path.join(cdir, key + '.json')
+    if cache and os.path.exists(cpath):
+        with open(cpath) as f:
+            d = json.load(f)
+        return d['sentences'], d['res']
+    res = tlc.run_model('MC_TypedGen', cfg_text=cfg, workers=1, timeout=timeout)
+    if not res['ok']:
+        raise tlc.MachineryError('typed generator failed:\n' + res['out'][-3000:])
+    sents, seen = [], set()
+    for t in res['tuples']:
+        if t and t[0] == 'S' and t[1] not in seen:
             seen.add(t[1])
             sents.append(json.loads(t[1]))
     r = dict(generated=res['generated'], distinct=res['distinct'], wall=res['wall'])
